@@ -754,3 +754,183 @@ def parse_wb(out):
         elif p[1] == "endsolve":
             cur = None
     return runs, weights, eqm, mats
+
+
+# ----------------------------------------------------------------------------- re-solve histories (write-back)
+def build_resolve_history(rng, sid, typ, n):
+    """The same unknown and correlated parameter handles are solved in several vnacal_new_t
+    structures of one vnacal_t, on grids of equal and of different length; after every solve the
+    parameters are queried at that solve's frequencies.  Known standards are constant over
+    frequency, the unknown's true value depends on the frequency."""
+    grids = [[1.0e9, 2.0e9, 3.0e9], [1.5e9, 2.5e9, 3.5e9], [1.2e9, 2.8e9], [2.0e9, 3.3e9], [1.1e9, 2.2e9, 3.4e9]]
+    rng.shuffle(grids)
+    r0 = crand(rng, 0.5, 0.9)
+    slope = rng.uniform(0.05, 0.1) * rng.choice([-1, 1])
+
+    def utruth(f):
+        return r0 * cmath.exp(1j * slope * f / 1.0e9)
+    base = crand(rng, 0.5, 0.9)
+    sc = Scenario(sid, typ, n, grids[0])
+    sc.history = []
+    fixed = [[rand_reflect(rng, k + port) for port in range(n)] for k in range(3)]
+    extra = [[crand(rng, 0.4, 0.9) for port in range(n)] for k in range(2)]
+    fulls = [rand_full_s(rng, n) for _ in range(2)] if n > 1 else []
+    names = {}
+
+    def kn(z):
+        key = complex(z)
+        if key not in names:
+            names[key] = sc.known([z])
+        return names[key]
+    guess = sc.known_vec([r0 * cmath.exp(1j * slope * 2.2)] * sc.nf) if False else None
+    gname = sc._name("k")
+    sc.lines.append("scalar %s %s" % (gname, cnum(r0 * cmath.exp(1j * slope * 2.2) * (1 + 0.03))))
+    sc.lines.append("unknown u %s" % gname)
+    bname = sc._name("k")
+    sc.lines.append("scalar %s %s" % (bname, cnum(base)))
+    sc.lines.append("correlated c %s 1 - 0.05" % bname)
+    sc.truth = {}
+    for gi, grid in enumerate(grids):
+        if gi > 0:
+            sc.lines.append("newcal %s %d %d %d %s" % (typ, n, n, len(grid), " ".join(fnum(f) for f in grid)))
+        sc.freqs, sc.nf = list(grid), len(grid)
+        em = ErrorModel(rng, typ, n, sc.nf)
+        stds = []
+        for k in range(3):
+            stds.append(([kn(fixed[k][p]) for p in range(n)], [[fixed[k][p]] * sc.nf for p in range(n)]))
+        # the unknown on port 1 (other ports known), the correlated parameter on the last port
+        stds.append((["u"] + [kn(extra[0][p]) for p in range(1, n)],
+                     [[utruth(f) for f in grid]] + [[extra[0][p]] * sc.nf for p in range(1, n)]))
+        stds.append(([kn(extra[1][p]) for p in range(n - 1)] + ["c"],
+                     [[extra[1][p]] * sc.nf for p in range(n - 1)] + [[base] * sc.nf]))
+        stds.append(([kn(extra[1][p] * 0.5) for p in range(n)], [[extra[1][p] * 0.5] * sc.nf for p in range(n)]))
+        for nm, vals in stds:
+            nmm = [[nm[i] if i == j else "zero" for j in range(n)] for i in range(n)]
+            st = [[[vals[i][f] if i == j else 0j for j in range(n)] for i in range(n)] for f in range(sc.nf)]
+            sc.add_mapped(nmm, [em.measure(st[f], f) for f in range(sc.nf)])
+        for sf in fulls:
+            nmm = [[kn(sf[i][j]) for j in range(n)] for i in range(n)]
+            sc.add_mapped(nmm, [em.measure(sf, f) for f in range(sc.nf)])
+        sc.cmd("ptol 1e-9")
+        sc.cmd("ettol 1e-9")
+        sc.solve()
+        sc.cmd("getparam u")
+        sc.cmd("getparam c")
+        sc.history.append((list(grid), {"u": [utruth(f) for f in grid], "c": [base] * len(grid)}))
+    sc.meta.update({"family": "resolve_history", "type": typ, "n": n, "grids": grids})
+    return sc
+
+
+# ----------------------------------------------------------------------------- long unknown line, several frequencies
+def build_unknown_line_multifreq(rng, sid, typ, nf=6, step_deg=108.0):
+    """2-port 8-term calibration from three known double reflects and a matched reciprocal line
+    of unknown transmission whose phase advances by step_deg per frequency point; the guess
+    (a vector parameter) is within 5 % of the truth at every frequency.  With reflects only,
+    -l is also an exact root, so the starting point decides."""
+    freqs = [1.0e9 + 0.3e9 * k for k in range(nf)]
+    em = ErrorModel(rng, typ, 2, nf)
+    sc = Scenario(sid, typ, 2, freqs)
+    sc.em = em
+    th0 = rng.uniform(0.3, 1.2)
+    mag = rng.uniform(0.85, 0.98)
+    lt = [mag * cmath.exp(-1j * (th0 + math.radians(step_deg) * k)) for k in range(nf)]
+    lg = [z * (1.0 + crand(rng, 0.01, 0.05)) for z in lt]
+    for a, b in ((-1.0, -1.0), (1.0, 1.0), (0.0, 0.0)):
+        ga = a * rng.uniform(0.9, 1.0) + crand(rng, 0, 0.05)
+        gb = b * rng.uniform(0.9, 1.0) + crand(rng, 0, 0.05)
+        sc.add_double(sc.known([ga]), sc.known([gb]), 1, 2,
+                      [em.measure([[ga, 0], [0, gb]], f) for f in range(nf)])
+    ln = sc.unknown(lt, lg, "l")
+    sc.add_line(["match", ln, ln, "match"], 1, 2, [em.measure([[0, lt[f]], [lt[f], 0]], f) for f in range(nf)])
+    sc.meta.update({"family": "unknown_line_multifreq", "type": typ, "nf": nf, "step_deg": step_deg})
+    return sc
+
+
+# ----------------------------------------------------------------------------- TRL-shaped inputs
+TRL_VARIANTS = ["exact_trl", "mismatched_line", "mismatched_line_two", "asym_through", "reflect_two_unknowns",
+                "reflect_known_one_port", "line_two_unknowns", "correlated_reflect", "trl_with_merror",
+                "four_standards", "known_reflect_on_line_diag_unknown"]
+
+
+def build_trl_shaped(rng, sid, typ, variant, order=None):
+    """Three (or four) 2-port standards that look like through / reflect / line; only
+    variant 'exact_trl' is a TRL calibration.  Records the cell classes of every standard
+    (sc.std_cells: Z zero, O one, K<i> known, U<i> unknown, C<i> correlated) for the dispatch model."""
+    nf = 1
+    em = ErrorModel(rng, typ, 2, nf)
+    sc = Scenario(sid, typ, 2, default_freqs(nf))
+    sc.em = em
+    ids = {}
+
+    def tok(name):
+        if name in ("zero", "match"):
+            return "Z"
+        if name in ("one", "open"):
+            return "O"
+        if name not in ids:
+            ids[name] = len(ids)
+        kind = "U" if name in sc.guess else ("C" if name in sc.truth else "K")
+        return "%s%d" % (kind, ids[name])
+    r = crand(rng, 0.4, 0.9)
+    while True:
+        l = crand(rng, 0.5, 0.95)
+        if 0.5 < abs(cmath.phase(l)) < math.pi - 0.5:
+            break
+
+    def unk(truth, name):
+        return sc.unknown([truth], [truth * (1.0 + crand(rng, 0.01, 0.04))], name)
+    items = []          # (kind, names4, truth 2x2)
+    tnames, ttruth = ["zero", "one", "one", "zero"], [[0, 1], [1, 0]]
+    if variant == "asym_through":
+        k = crand(rng, 0.8, 0.97)
+        tnames, ttruth = ["zero", "one", sc.known([k]), "zero"], [[0, 1], [k, 0]]
+    items.append(("T", tnames, ttruth))
+    if variant == "reflect_two_unknowns":
+        r2 = crand(rng, 0.4, 0.9)
+        items.append(("R", [unk(r, "r"), "zero", "zero", unk(r2, "r2")], [[r, 0], [0, r2]]))
+    elif variant == "reflect_known_one_port":
+        r2 = crand(rng, 0.4, 0.9)
+        items.append(("R", [unk(r, "r"), "zero", "zero", sc.known([r2])], [[r, 0], [0, r2]]))
+    elif variant == "correlated_reflect":
+        base = sc.known_vec([r])
+        cn = sc.correlated(base, 0.05, [r], "r")
+        items.append(("R", [cn, "zero", "zero", cn], [[r, 0], [0, r]]))
+    else:
+        rn = unk(r, "r")
+        items.append(("R", [rn, "zero", "zero", rn], [[r, 0], [0, r]]))
+    if variant == "mismatched_line":
+        g = 0.08 + 0.03j
+        gn = sc.known([g])
+        ln = unk(l, "l")
+        items.append(("L", [gn, ln, ln, gn], [[g, l], [l, g]]))
+    elif variant == "mismatched_line_two":
+        g1, g2 = 0.08 + 0.03j, -0.05 + 0.06j
+        ln = unk(l, "l")
+        items.append(("L", [sc.known([g1]), ln, ln, sc.known([g2])], [[g1, l], [l, g2]]))
+    elif variant == "line_two_unknowns":
+        l2 = l * cmath.exp(0.3j)
+        items.append(("L", ["zero", unk(l, "l"), unk(l2, "l2"), "zero"], [[0, l], [l2, 0]]))
+    elif variant == "known_reflect_on_line_diag_unknown":
+        # "line" whose diagonal is the unknown reflect and whose transmission is known
+        k = crand(rng, 0.5, 0.9)
+        kn = sc.known([k])
+        ln = unk(l, "l")
+        items.append(("L", [ln, kn, kn, ln], [[l, k], [k, l]]))
+    else:
+        ln = unk(l, "l")
+        items.append(("L", ["zero", ln, ln, "zero"], [[0, l], [l, 0]]))
+    if variant == "four_standards":
+        items.append(("X", ["zero", "zero", "zero", "zero"], [[0, 0], [0, 0]]))
+    if order is None:
+        order = list(range(len(items)))
+        rng.shuffle(order)
+    sc.std_cells = []
+    for i in order:
+        kind, nm, tr = items[i]
+        sc.add_line(nm, 1, 2, [em.measure(tr, 0)])
+        sc.std_cells.append([tok(x) for x in nm])
+    if variant == "trl_with_merror":
+        sc.cmd("merror 1 - 1e-4 -")
+    sc.meta.update({"family": "trl_shaped", "variant": variant, "type": typ,
+                    "m_error": variant == "trl_with_merror"})
+    return sc
